@@ -63,6 +63,21 @@ CLAIMS = {
                      "a failing replay.",
         "technique": "Lean 4 theorems + regenerated call-site facts (decide) + replay/resume oracles",
     },
+    "C19": {
+        "text": "Theorems for every input (raw bytes) and every position the engine can hold (readN input k, all k): the "
+                "offset and the end of the current rune lie within the input; the offset is a rune boundary; whenever the "
+                "rune at the offset is not a newline the reported (line, col) equal the specification (1 + newlines before, "
+                "1 + runes since the last newline); at a newline rune the engine provably reports (line+1, 0) — refuted full "
+                "statement with a kernel-checked witness (known finding). fmtErr: exact shape per language setting (Chinese "
+                "only / English only / both), caret preceded by exactly col-1 blanks, quoted line = the line-th "
+                "newline-separated segment when <= 60 bytes. Tie: errfmt stream compares the complete error text of every "
+                "rejected generated input in the three languages with the Lean model of read + formatFriendlyError + fmtErr "
+                "+ getLineAtBytes (incl. invalid UTF-8, NUL, multi-line, multi-byte). Oracle on the implementation recomputes "
+                "line/column/quote/caret from the reported offset and checks the language.",
+        "note": TB + "Which offset the packrat engine reports (maxFailPos) is taken from the implementation until the PEG engine "
+                     "is modelled; concurrent language isolation is decided under C11.",
+        "technique": "Lean 4 invariant proof over the engine's read() + byte-exact differential stream of error texts",
+    },
 }
 
 NOT_YET = {}
